@@ -74,8 +74,9 @@ def rule_window(ctx: Ctx) -> None:
         ok = canon(_RowCol().visit(copy.deepcopy(first[a]))) == canon(first[b])
         ctx.ob("C16.WINDOW-SYM", IMG, d.all_defs(b)[0][0], f"get_window: {b} is the row/col image of {a}", ok, expected=canon(_RowCol().visit(copy.deepcopy(first[a]))), detail="rows and columns must be treated alike (col<->row, margins[0]<->[1], [2]<->[3])")
     out = [s for s in stmts_of(f) if isinstance(s, ast.If) and any(isinstance(x, ast.Raise) for x in s.body)]
-    okout = bool(out) and equivalent(boolform(out[0].test), boolform(_e(f"col_off > {w} or row_off > {h} or (col_off + roi_width) < 0 or (row_off + roi_height) < 0"))) is None
-    ctx.ob("C16.WINDOW", IMG, out[0] if out else f, f"get_window: ROI outside the image refused: {src(out[0].test)[:120] if out else 'missing'}", okout, expected="col_off > width or row_off > height or col_off + roi_width < 0 or row_off + roi_height < 0")
+    # "entirely outside" = the (clamped) window is empty: it starts at or beyond the far side, or has no column / row left
+    okout = bool(out) and equivalent(boolform(out[0].test), boolform(_e(f"col_off >= {w} or row_off >= {h} or roi_width <= 0 or roi_height <= 0"))) is None
+    ctx.ob("C16.WINDOW", IMG, out[0] if out else f, f"get_window: ROI outside the image refused: {src(out[0].test)[:120] if out else 'missing'}", okout, expected=f"col_off >= {w} or row_off >= {h} or roi_width <= 0 or roi_height <= 0", detail="a ROI that only touches the image from outside (first - margin == width, or last + margin == -1) has an empty window: strict comparisons let it through and an empty dataset is returned instead of a refusal")
     clips = [s for s in stmts_of(f) if isinstance(s, ast.If) and not any(isinstance(x, ast.Raise) for x in s.body)]
     got = {}
     for s in clips:
@@ -154,6 +155,12 @@ def rule_create(ctx: Ctx) -> None:
     if attrs:
         ent = {k.value: canon(v) for k, v in zip(attrs[0].value.keys, attrs[0].value.values) if isinstance(k, ast.Constant)}
         ctx.ob("C16.MASK", IMG, attrs[0], f"mask convention valid_pixels={ent.get('valid_pixels')} no_data_mask={ent.get('no_data_mask')}", ent.get("valid_pixels") == "0" and ent.get("no_data_mask") == "1", expected="valid = 0, no_data = 1")
+        # georeferencing: the file's CRS and transform, the transform dropped only when it says nothing (identity, no CRS)
+        td = d.all_defs("transform")
+        okt = ent.get("crs") == "crs" and ent.get("transform") == "transform" and bool(td) and canon(td[0][1]) == "img_ds.profile['transform']" and canon(d.all_defs("crs")[0][1]) == "img_ds.profile['crs']"
+        nones = [x for x in td[1:] if isinstance(x[1], ast.Constant) and x[1].value is None]
+        okn = len(td) == 1 + len(nones) and all(any(pol and equivalent(boolform(t), boolform(_e("crs is None and transform == rasterio.Affine.identity()"))) is None for t, pol in guards_of(x[0], stop=f)) for x in nones)
+        ctx.ob("C16.ATTACH", IMG, td[0][0] if td else attrs[0], f"attrs carry the file's georeferencing: transform = {canon(td[0][1]) if td else '?'}{' ; None when ' + src(guards_of(nones[0][0], stop=f)[0][0]) if nones and guards_of(nones[0][0], stop=f) else ''}", okt and okn, expected="transform = img_ds.profile['transform']; None only if crs is None and the transform is the identity", detail="an image with a geotransform but no CRS (tie points / world file) must keep its transform: dropping it whenever the CRS is missing writes every product with the identity transform")
 
 
 def rule_nodata_mask(ctx: Ctx) -> None:
@@ -246,6 +253,8 @@ SPEC = PropSpec(
 )
 
 MUTANTS = [
+    {"id": "transform-dropped-whenever-crs-missing", "file": IMG, "old": '    transform = img_ds.profile["transform"]\n    if crs is None and transform == rasterio.Affine.identity():\n        transform = None\n', "new": '    transform = img_ds.profile["transform"] if crs is not None else None\n'},
+    {"id": "adjacent-roi-accepted", "file": IMG, "old": "    if col_off >= width or row_off >= height or roi_width <= 0 or roi_height <= 0:\n", "new": "    if col_off > width or row_off > height or (col_off + roi_width) < 0 or (row_off + roi_height) < 0:\n"},
     {"id": "float64", "file": IMG, "old": "data = img_ds.read(1, out_dtype=np.float32, window=window)", "new": "data = img_ds.read(1, out_dtype=np.float64, window=window)"},
     {"id": "nodata-before-invalid", "edits": [(IMG, '    dataset["msk"].data[(no_data_pixels[-2], no_data_pixels[-1])] = int(dataset.attrs["no_data_mask"])\n    return dataset', "    return dataset"), (IMG, "    # Mask invalid pixels if needed\n", '    dataset["msk"].data[(no_data_pixels[-2], no_data_pixels[-1])] = int(dataset.attrs["no_data_mask"])\n    # Mask invalid pixels if needed\n')]},
     {"id": "invalid-code-is-nodata", "file": IMG, "old": '            dataset.attrs["valid_pixels"] + dataset.attrs["no_data_mask"] + 1\n', "new": '            dataset.attrs["valid_pixels"] + dataset.attrs["no_data_mask"]\n'},
